@@ -108,7 +108,7 @@ def main():
         name = f"{pid}-{rnd}"
         dst = os.path.join(V, "seeded", name)
         os.makedirs(dst, exist_ok=True)
-        for f in ("patch.diff", "demo.py", "notes.md"):
+        for f in ("patch.diff", "demo.py", "notes.md", "patch.as_written_by_the_agent.diff"):
             if os.path.exists(os.path.join(src, f)):
                 shutil.copy(os.path.join(src, f), os.path.join(dst, f))
         ver = {}
@@ -129,6 +129,9 @@ def main():
             "how_run": "tools/seeded.sh <patch.diff> <ID...>: scratch copy of /repo/pandora + patch, ./check <ID> with PANDORA_VERIF_REPO pointing at it",
             "check_strengthened_because_of_it": strengthened or None,
         }
+        if os.path.exists(os.path.join(dst, "patch.as_written_by_the_agent.diff")):
+            meta["rebased"] = ("patch.diff is the agent's change carried over by hand to the repository HEAD after fix b4edce1 rewrote the same "
+                               "two lines (same edit, context updated); the original is kept as patch.as_written_by_the_agent.diff")
         if name == "C01-3":
             meta["neutralised_by"] = "a1b4bed"
         json.dump(meta, open(os.path.join(dst, "meta.json"), "w"), indent=1)
